@@ -18,6 +18,10 @@ CHECKS = {
    technique="explicit enumeration of all control schedules of the stated families over a 3-step grid, each executed on the real Control/ChainControl + compute_dynamics/PtTebd code and compared state-by-state with a dense reference",
    text="All 768 schedules (every single control over step x side x int/float spec x map; every ordered pair on one slot over 3 non-commuting maps and all spec pairs; every ordered pair of distinct slots; every order of 3 stacked controls) are installed through the real API and executed with and without an exact ancilla process tensor, at two start times, and on either site of a 2-site PT-TEBD chain; every recorded state must equal the reference that applies pre controls in insertion order, records, applies post controls in insertion order, propagates. Exhaustive within N=3 and the four control maps.",
    note="Trusts the dense reference simulator (mc/refmodel.py). Chains are uncoupled in this check (coupled chains: C10). Three mixed int/float ordering defects of Control are recorded as known findings."),
+ "C07": dict(category="model_checking", design="4/C07",
+   technique="exhaustive enumeration of the time-specification lattice over a 4-point grid (every int, slice, ordered subset, float, float interval; both argument positions; both time orders; pairs of subsets/intervals) through the real compute_correlations(_nt), exact table from a first-principles system+ancilla simulation",
+   text="Every time specification over a grid of N=3 steps is fed to the real compute_correlations in both positions and both time orders, all 64x64 pairs of ordered subsets and 16x16 pairs of intervals are combined, 3- and 4-time correlations run over a reduced product with all left/right patterns; returned axes, NaN pattern and every entry are compared with the exact multi-time correlation table of an ancilla environment (and, for a PT-TEMPO process tensor, with a table from explicit compute_dynamics runs). dt-argument family, anti/ordered conjugation relation, and the bath occupation/correlation closed forms for pure-dephasing models (plus the occupation time-axis lattice N<=60/150 x 7 dt) are checked too. Exhaustive over the N=3 lattice only.",
+   note="Trusts mc/refmodel.py; empty and out-of-range selections may raise or return empty arrays; dw != 1 is outside the stated quantifier."),
 }
 NOT_YET = "check not built yet in this round (see DESIGN.md sec. 8 build order)"
 
